@@ -8,9 +8,12 @@ import (
 	"fmt"
 	"os"
 	"path/filepath"
+	"runtime"
 	"runtime/debug"
 	"sort"
 	"strings"
+	"sync/atomic"
+	"time"
 
 	"github.com/ryogrid/SamehadaDB/lib/catalog"
 	"github.com/ryogrid/SamehadaDB/lib/common"
@@ -35,6 +38,9 @@ func init() {
 	common.TempSuppressOnMemStorage = true // real files (tmpfs), as the repository's persistence tests do
 	concurrency.VerifNoBackground = true   // hook H2
 }
+
+// openTimeout: NewSamehadaDB normally takes 0.5-3 ms.
+var openTimeout = 20 * time.Second
 
 type DB struct {
 	Path  string // file name prefix: <Path>.db / <Path>.log
@@ -78,6 +84,43 @@ func guard(fn func()) (fail *Failure) {
 	return nil
 }
 
+// guardTimeout is guard with a hang detector: fn runs in its own goroutine; if it has not returned after
+// d (orders of magnitude above its normal cost) the stacks are dumped to find where it spins and the
+// goroutine is abandoned. The verdict is re-checked by the caller before it is reported.
+func guardTimeout(d time.Duration, fn func()) (fail *Failure) {
+	done := make(chan *Failure, 1)
+	var gid atomic.Value
+	go func() {
+		gid.Store(curGoroutineLine())
+		done <- guard(fn)
+	}()
+	select {
+	case f := <-done:
+		return f
+	case <-time.After(d):
+		buf := make([]byte, 1<<20)
+		n := runtime.Stack(buf, true)
+		where := "unknown"
+		want, _ := gid.Load().(string)
+		for _, g := range strings.Split(string(buf[:n]), "\n\n") {
+			if want != "" && strings.HasPrefix(g, want) {
+				where = libFrame(g)
+			}
+		}
+		return &Failure{Kind: "hang", Msg: fmt.Sprintf("call did not return within %v", d), Where: where}
+	}
+}
+
+func curGoroutineLine() string {
+	buf := make([]byte, 64)
+	n := runtime.Stack(buf, false)
+	s := string(buf[:n])
+	if i := strings.Index(s, " ["); i > 0 {
+		return s[:i] + " ["
+	}
+	return ""
+}
+
 func firstLineOf(s string) string {
 	if i := strings.IndexByte(s, '\n'); i >= 0 {
 		s = s[:i]
@@ -112,7 +155,7 @@ func libFrame(st string) string {
 func OpenDB(path string, memKB int) (*DB, *Failure) {
 	d := &DB{Path: path, MemKB: memKB}
 	vrand.Reset()
-	f := guard(func() { d.SDB = samehada.NewSamehadaDB(path, memKB) })
+	f := guardTimeout(openTimeout, func() { d.SDB = samehada.NewSamehadaDB(path, memKB) })
 	vsched.DropPendingSpawns()
 	if f != nil {
 		return nil, f
